@@ -11,8 +11,8 @@ git apply --check ".mutants/m$K.diff" || { echo "m$K: patch does not apply to HE
 git apply ".mutants/m$K.diff"
 SUITE=$(cargo test --offline --lib 2>&1 | grep -E "^test result" | head -1)
 mkdir -p tests; cp ".mutants/m${K}_demo.rs" "tests/m${K}_demo.rs"
-cargo test --offline --test "m${K}_demo" > /tmp/confirm_demo_with.log 2>&1; WITH=$?
+cargo test --offline --test "m${K}_demo" > "$W/.mutants/confirm_with_$K.log" 2>&1; WITH=$?
 git checkout -q -- src examples
-cargo test --offline --test "m${K}_demo" > /tmp/confirm_demo_without.log 2>&1; WITHOUT=$?
+cargo test --offline --test "m${K}_demo" > "$W/.mutants/confirm_without_$K.log" 2>&1; WITHOUT=$?
 rm -rf tests
-echo "m$K: suite-with-mutant: [$SUITE] demo-with-mutant exit=$WITH ($(grep -E '^test result' /tmp/confirm_demo_with.log | head -1)) demo-on-HEAD exit=$WITHOUT ($(grep -E '^test result' /tmp/confirm_demo_without.log | head -1))"
+echo "m$K: suite-with-mutant: [$SUITE] demo-with-mutant exit=$WITH ($(grep -E '^test result' "$W/.mutants/confirm_with_$K.log" | head -1)) demo-on-HEAD exit=$WITHOUT ($(grep -E '^test result' "$W/.mutants/confirm_without_$K.log" | head -1))"
